@@ -41,7 +41,7 @@ def commandB (inv : Inv Nat (Option Nat) Unit) (ds : List (Dlg Nat)) : Bool :=
   ((List.range (ds.length - 1)).all fun i =>
     match ds[i]?, ds[i+1]? with | some a, some b => Command.covers b.cmd a.cmd | _, _ => false)
 
-def runChain : List String → Option String
+partial def runChain : List String → Option String
   | ["chain.allowed", inv, prf, dlgs, now, args, hook, _irrelevant] => runChain ["chain.allowed", inv, prf, dlgs, now, args, hook]
   | ["chain.allowed", inv, prf, dlgs, now, args, hook] => do
     let table ← if dlgs == "-" then some [] else (dlgs.splitOn "#").mapM parseDlg
@@ -79,6 +79,33 @@ def runChain : List String → Option String
             (if e == .hookError then ["hook"] else [])
           if cl.isEmpty then pure "driver-inconsistent" else pure ("deny " ++ ",".intercalate cl)
     | _ => none
+  | ["chain.history", inv, prf, dlgs, args, steps] => do
+    -- the same invocation validated several times: each step is `<loader>/<hook>` (loader = `all`, `none` or
+    -- `.`-separated indexes of the loadable table entries) or `T` (time passes: now goes from 0 to 3)
+    let rec go (now : Int) (acc : List String) : List String → Option (List String)
+      | [] => some acc.reverse
+      | "T" :: rest => go 3 acc rest
+      | st :: rest =>
+        match st.splitOn "/" with
+        | [ldSpec, hook] =>
+          let keep : Option (Nat → Bool) :=
+            if ldSpec == "all" then some (fun _ => true)
+            else if ldSpec == "none" then some (fun _ => false)
+            else ((ldSpec.splitOn ".").mapM String.toNat?).map (fun l k => l.contains k)
+          match keep with
+          | none => none
+          | some keep =>
+            -- restrict the table by replacing unavailable entries' indexes in prf with `x`
+            let prf' := ".".intercalate ((prf.splitOn ".").map (fun p =>
+              match p.toNat? with
+              | some k => if keep k then p else "x"
+              | none => p))
+            match runChain ["chain.allowed", inv, prf', dlgs, toString now, args, hook] with
+            | some r => go now (r :: acc) rest
+            | none => none
+        | _ => none
+    let rs ← go 0 [] (steps.splitOn ",")
+    pure (";".intercalate rs)
   | ["chain.validat", kind, nbf, exp, t] => do
     let nbf ← optInt nbf; let exp ← optInt exp; let t ← t.toInt?
     if kind == "dlg" then
